@@ -357,7 +357,8 @@ class Check:
 
     def enough(self) -> bool:
         """True once enough violations are recorded that exploring further only costs time."""
-        return len(self.violations) >= 3 or (time.time() - self.t0 > (1500 if not self.thorough else 7200))
+        el = time.time() - self.t0
+        return len(self.violations) >= 3 or (self.violations and el > 240) or el > (1500 if not self.thorough else 7200)
 
     def correspondence_break(self, what: str, detail):
         """Model and implementation differ (or a proof/translator obligation broke) without a
